@@ -607,6 +607,15 @@ def nested_scalar_foreach(ck, n_cases):
             def __init__(self, n):
                 self.tag = vsc.rand_uint8_t()
                 self.data = vsc.rand_list_t(vsc.uint8_t(), n)
+                # a list of random size owned by an element of a list of objects (F67)
+                self.rs = vsc.randsz_list_t(vsc.uint8_t())
+
+            @vsc.constraint
+            def rs_c(self):
+                self.rs.size >= 1
+                self.rs.size <= 4
+                with vsc.foreach(self.rs) as e:
+                    e < 50
 
         @vsc.randobj
         class Burst:
@@ -656,6 +665,13 @@ def nested_scalar_foreach(ck, n_cases):
                     vals = [int(v) for v in p.data]
                     if i < len(sizes) and len(vals) != sizes[i]:
                         bad.append("pkts[%d].data has %d elements, the user put %d" % (i, len(vals), sizes[i]))
+                    try:
+                        rs = [int(v) for v in p.rs]
+                        if not (1 <= len(p.rs) <= 4 and len(rs) == len(p.rs) and all(v < 50 for v in rs)):
+                            bad.append("pkts[%d].rs = %s with len() %d: size in 1..4, every element < 50, as many elements as len()" % (i, rs, len(p.rs)))
+                    except IndexError:
+                        bad.append("pkts[%d].rs: len() is %d but iterating raises IndexError (%d element models)" % (
+                            i, len(p.rs), len(p.rs.get_model().field_l)))
                     if int(p.tag) != i + c0:
                         bad.append("pkts[%d].tag = %d, body requires %d" % (i, int(p.tag), i + c0))
                     for j, v in enumerate(vals):
